@@ -124,10 +124,23 @@ def run_c01(ctx) -> Corr:
                 "dump shape, load(dump(m)) == m, dump(load(l)) == rstrip(l)+'\\n' on canonical lines, "
                 "Gateway.send/listen end to end, all against the Lean encode/decode. non-trivial = payload has "
                 "';', whitespace or non-ASCII, or a field is a boundary/negative/huge value, or the id-request "
-                "exception applies")
+                "exception applies. Plus gateway histories (states:* in the distribution; harness/props/codecstates.py): "
+                "node lives and random traffic on one real Gateway per history, 5 versions, held set commands released at "
+                "wakes, replies, reboot flags, unknown version / nodes; checked per step: the message Gateway.listen yields "
+                "has exactly the field values its transport line spells and re-encodes to it, Gateway.send writes exactly "
+                "the message's encoding, every written text is a one-line encoding; non-trivial there = a yielded line "
+                "whose handler also wrote something, or a send that was held")
+    corr.notes.append("Gateway histories (codecstates.run): judged by the oracle and also expressed as operations of the Lean "
+                      "gateway model (Driver.lean gnew/gnode/gchild/gval/grecv/gsend), compared on the codec view only: the six "
+                      "yielded field values (or invalid / raised) per received line, outcome class and written texts per send "
+                      "call. Replies written while a line is handled, registry and buffers are other properties' views "
+                      "(C04, C06, C07) and are not compared here; the listen() generator style (one generator / a fresh one "
+                      "per line) and the probe line placed after every line under test are not operations of the model.")
     rng = lib.rng_for(ctx.seed, "c01")
     cases = []
     for c in lib.load_corpus("C01"):
+        if "history" in c:
+            continue      # gateway histories: replayed by codecstates.run below
         cases.append((c["version"], tuple(c["fields"]), c["payload"], "corpus"))
     msgs = [m for m in wf_messages(rng, ctx.tier) if cross_ok(m[1], m[2], m[4])]
     n_product = 3 * len(gen.ID_VALUES) * 5 * 2 * 23
@@ -263,6 +276,12 @@ def run_c01(ctx) -> Corr:
             reused += 1
     asyncio.run(reuse_run())
     corr.count("sends-of-a-reused-message-object", reused)
+
+    # ... and at the gateway boundary in gateway states where the handlers do more than return: whole histories (nodes
+    # presenting, reporting, asking, sleeping with held set commands of several keys and payload kinds, waking, reboot
+    # flags, version unknown, unknown nodes), all five versions; every message Gateway.listen yields must spell its line
+    from . import codecstates
+    codecstates.run(corr, ctx)
     return corr
 
 
